@@ -23,7 +23,9 @@ from props.c05 import gen_csg
 
 def run(replay=None):
     ck = common.Check("C09", level="proof")
+    rep = common.regen_translators()      # Gen/HeightmapRecurse_gen.v: Heightmap::recurse's control skeleton, from the source
     proof = ck.proof_obligations()
+    ck.coverage["translators"] = {k: v for k, v in rep.items() if "Heightmap" in k or v != "ok"}
     ok_d, log_d = common.build_driver(**common.DRIVERS["vdriver"])
     ok_h, log_h = common.build_harness(["bin/expr"])
     if not ok_h:
